@@ -19,7 +19,8 @@ EXPLANATION = (
     "five atoms (bt, ipv8, BT-flag, IPV8-flag, own-prefix) and must equal (bt&BT)|(v8&V8)|(v8&own); every path of "
     "TunnelExitSocket.sendto to transport.sendto and of datagram_received to tunnel_data passes a truthy "
     "is_allowed(<the very data emitted>); closed sets of callers for transport.sendto / exit_socket.sendto / enable / "
-    "tunnel_data; exit_data dominated by destination != ('0.0.0.0', 0); enable() dominated by the previous-hop IP "
+    "tunnel_data; exit_data dominated by destination != ('0.0.0.0', 0) and transport.sendto dominated by the same test on the address "
+    "actually emitted (after domain-name resolution re-entered sendto); enable() dominated by the previous-hop IP "
     "comparison; the DataChecker classifiers are decision tables over the inspected quantities (length, byte slices, "
     "unpacked header fields) evaluated on every region their comparisons can distinguish, with guarded reads."
 )
